@@ -12,6 +12,7 @@ import (
 
 func init() {
 	extraGens["vesting"] = func(r *rand.Rand, depth int) (string, []Step) { return "vesting", genVestingWalk(r, depth) }
+	extraGens["batch"] = func(r *rand.Rand, depth int) (string, []Step) { return "ledger", genBatchWalk(r, depth) }
 	extraGens["oracle"] = func(r *rand.Rand, depth int) (string, []Step) { return "oracle", genOracleWalk(r, depth) }
 }
 
@@ -87,6 +88,41 @@ func genOracleWalk(r *rand.Rand, n int) []Step {
 			}
 		default:
 			st = append(st, Step{"a": "block", "dt": float64(pick(r, 5, 5, 5, 20, 30, 61, 200)), "n": float64(pick(r, 1, 1, 1, 2, 3))})
+		}
+	}
+	return st
+}
+
+// genBatchWalk: blocks carrying several swap requests at once (same and opposite directions on the same pool, two-hop
+// routes sharing a pool, both forms, tight / impossible limits, recipients other than the sender), optionally together
+// with a price-moving join / exit in the same block.
+func genBatchWalk(r *rand.Rand, n int) []Step {
+	var st []Step
+	users := []string{"u1", "u2", "u3"}
+	for len(st) < n {
+		k := 2 + r.Intn(5)
+		for i := 0; i < k; i++ {
+			u := pick(r, users...)
+			form := pick(r, "swapIn", "swapIn", "swapOut")
+			s := Step{"a": form, "u": u, "sz": pick(r, "dust", "s1", "s2", "s2", "s3"), "limit": pick(r, "loose", "loose", "tight", "tight", "impossible"),
+				"rcpt": pick(r, "", "", "u3", "u4")}
+			switch r.Intn(6) {
+			case 0:
+				s["route"], s["din"] = []any{float64(1), float64(2)}, "uatom"
+			case 1:
+				s["route"], s["din"] = []any{float64(2), float64(1)}, "uelys"
+			default:
+				s["p"], s["din"] = float64(1+r.Intn(2)), pick(r, "uusdc", "")
+			}
+			st = append(st, s)
+			if r.Intn(6) == 0 {
+				st = append(st, pick(r, Step{"a": "join", "u": pick(r, users...), "p": float64(1 + r.Intn(2)), "sz": "s3", "mode": "all"},
+					Step{"a": "exit", "u": "u1", "p": float64(1 + r.Intn(2)), "frac": "third"}))
+			}
+		}
+		st = append(st, Step{"a": "block", "dt": float64(5)})
+		if r.Intn(3) == 0 {
+			st = append(st, Step{"a": "fee", "d": pick(r, "uusdc", "uatom", "uelys")})
 		}
 	}
 	return st
